@@ -31,7 +31,12 @@ RULE = ('exhaustive: every index j from the first (ANSI 0, others 1) up to the t
         'through the inverse maps; plus order independence: before anything else, and again after each ascending sweep, '
         'every map is asked non-ascending sequences (all ordered pairs of the first 24 indices, (next block, block end), '
         '(two blocks on, block end), ping-pong around block ends, a descending run, a seeded random permutation of 1..10^4) '
-        'and must give the answer of the model / of a fresh process.  A case is non-trivial unless it is the first index; distinct = distinct (item, index).')
+        'and must give the answer of the model / of a fresh process.  A case is non-trivial unless it is the first index; distinct = distinct (item, index).  '
+        'Names (session 3): nm_to_name on EVERY valid (n,m), n<=80 (quick) / 400 (thorough), every third pair as np.int64, the string parsed back '
+        'into (kind, ordinal, column, suffix) with the real tables and compared with the Lean model, all names pairwise different; '
+        'zernikes_to_magnitude_angle(_nmkey) and top_n on seeded coefficient lists built from the first N<=400 orders of Noll / ANSI / Fringe '
+        '(natural, reversed, shuffled, terms dropped so that +-m partners are missing, single column), random non-zero coefficients and random k; '
+        'non-trivial when a list has both paired and unpaired terms / k>1.')
 ASSUMPTIONS = ['np.sqrt is correctly rounded and np.ceil/np.floor are exact on doubles (IEEE-754); the exact-integer '
                'reading of ceil(sqrt(.)) used by the translator is validated against NumPy on every index of the sweep '
                'and at the square / triangular boundaries below 2^52, not proved',
@@ -878,6 +883,40 @@ def _topn_check(P, lst, k):
     return None
 
 
+def _barplot_check(P, lst, sort, orientation, with_err):
+    """barplot_magnitudes: one bar per (n, |m|) class, labelled with the class name, height |magnitude|; sort=True orders
+    bars, labels (and error bars) by the SAME permutation, ascending magnitude.  Returns a detail string or None."""
+    import matplotlib
+    matplotlib.use('Agg')
+    from matplotlib import pyplot as plt
+    nms = [(n, m) for n, m, _ in lst]
+    cs = np.array([c for _, _, c in lst])
+    named = P.zernikes_to_magnitude_angle([tuple(x) for x in lst])
+    exp = [(k, abs(float(v[0]))) for k, v in named.items()]
+    if sort:
+        exp = sorted(exp, key=lambda kv: kv[1])
+    st, val = _call2(P.zernike_barplot_magnitudes, cs, nms, 0.1 * abs(cs) if with_err else None, orientation, sort)
+    if st != 'ok':
+        return f'barplot_magnitudes {st}: {val}'
+    fig, ax = val
+    try:
+        if orientation == 'h':
+            labels = [t.get_text() for t in ax.get_xticklabels()]
+            sizes = [float(q.get_height()) for q in ax.patches]
+        else:
+            labels = [t.get_text() for t in ax.get_yticklabels()]
+            sizes = [float(q.get_width()) for q in ax.patches]
+    finally:
+        plt.close(fig)
+    got = list(zip(labels, sizes))
+    if len(got) != len(exp):
+        return f'{len(got)} bars for {len(exp)} classes'
+    for i, ((gl, gs), (el, es)) in enumerate(zip(got, exp)):
+        if gl != el or abs(gs - es) > 1e-12 * max(1.0, es):
+            return f'bar {i} is ({gl!r}, {gs!r}), expected ({el!r}, {es!r})' + (' (bars and labels sorted by ascending magnitude)' if sort else '')
+    return None
+
+
 def _coef_lists(ctx, fwd, count):
     """coefficient lists [(n, m, c)] as users build them: the first N orders of a convention (Noll / ANSI / Fringe), natural,
     reversed or shuffled, optionally with terms dropped (unpaired +-m), a rotationally symmetric-only list, a single column"""
@@ -975,6 +1014,22 @@ def _names_correspondence(ctx):
             ctx.pred_fail('top_n', {'coefs': small, 'k': min(k, len(small))}, _topn_check(P, small, min(k, len(small))) or d)
 
 
+    # ---- barplot_magnitudes: bars, labels and sort permutation (a few lists; matplotlib, Agg)
+    nb = ctx.scale(10, 60)
+    for t, (tag, lst) in enumerate(lists[:nb]):
+        lst = lst[:60]
+        sort, orient, err = bool(t % 2), ('h', 'v')[(t // 2) % 2], bool((t // 4) % 2)
+        ctx.case('barplot', {'tag': tag, 'len': len(lst), 'sort': sort, 'orientation': orient, 'c': lst[0][2]}, nontrivial=len(lst) > 2,
+                 tag=('sorted' if sort else 'unsorted') + ':' + orient + (':err' if err else ''))
+        d = _barplot_check(P, lst, sort, orient, err)
+        if d and nbad < 6:
+            nbad += 1
+            small = _shrink_coefs(P, lst, lambda l: _barplot_check(P, l, sort, orient, err))
+            c = {'coefs': small, 'sort': sort, 'orientation': orient, 'errorbars': err}
+            ctx.disagree('barplot', c, d, 'one bar per class, same permutation for bars and labels')
+            ctx.pred_fail('barplot', c, _barplot_check(P, small, sort, orient, err) or d)
+
+
 def _shrink_coefs(P, lst, fails):
     """greedy removal of terms while the predicate still fails"""
     cur = [list(x) for x in lst]
@@ -1021,6 +1076,13 @@ def _names_search(ctx):
             if d:
                 small = _shrink_coefs(P, lst, lambda l: _topn_check(P, l, min(k, len(l))))
                 return {'item': 'top_n', 'input': {'coefs': small, 'k': min(k, len(small))}, 'detail': d}
+    for t, (tag, lst) in enumerate(_coef_lists(ctx, None, 8)):
+        lst = lst[:40]
+        for sort in (False, True):
+            d = _barplot_check(P, lst, sort, 'hv'[t % 2], False)
+            if d:
+                small = _shrink_coefs(P, lst, lambda l: _barplot_check(P, l, sort, 'hv'[t % 2], False))
+                return {'item': 'barplot', 'input': {'coefs': small, 'sort': sort, 'orientation': 'hv'[t % 2], 'errorbars': False}, 'detail': d}
     return None
 
 
@@ -1042,6 +1104,11 @@ def _names_replay(item, c):
         print('zernikes_to_magnitude_angle_nmkey ->', _call2(P.zernikes_to_magnitude_angle_nmkey, lst))
         print('zernikes_to_magnitude_angle       ->', _call2(P.zernikes_to_magnitude_angle, lst))
         d = _magang_check(P, lst, _py_groups(lst))
+        print('predicate:', d or 'holds')
+        return bool(d)
+    if item == 'barplot':
+        d = _barplot_check(P, lst, c['sort'], c['orientation'], c['errorbars'])
+        print(f"barplot_magnitudes(sort={c['sort']}, orientation={c['orientation']!r}) on {lst}")
         print('predicate:', d or 'holds')
         return bool(d)
     if item == 'top_n':
@@ -1103,7 +1170,7 @@ def search(ctx, hints):
     # corpus / hints first
     for pf in hints.get('pred_failures', []):
         c = pf['case']
-        if 'j' in c or pf['item'] in ('name', 'magang', 'top_n'):
+        if 'j' in c or pf['item'] in ('name', 'magang', 'top_n', 'barplot'):
             return {'item': pf['item'], 'input': c, 'detail': pf['detail']}
     best = None
     for conv in CONVS:
@@ -1148,7 +1215,7 @@ def replay(inp):
     item, c = inp['item'], inp['input']
     conv = item.split('_')[0]
     print('replaying', item, {k: v for k, v in c.items() if k != 'sequence'})
-    if item in ('name', 'magang', 'top_n'):
+    if item in ('name', 'magang', 'top_n', 'barplot'):
         return _names_replay(item, c)
     if 'dtype' in c:
         r = _raw()
@@ -1242,6 +1309,17 @@ MANIFEST_ENTRY = {
              '(proved in range: no IndexError) and the three while loops of xy_j_to_mn (fuel-bounded recursion; proved that the '
              'fuel j never runs out); the translated obligations are proved semantically (outermost operator matched, arguments '
              'by ring/omega), so reordered summands, a conditional instead of (1+sign m)/2, // for int(/) etc. do not alarm. '
+             'NAMES / PAIRING (session 3): also re-translated every run: _name_accessor (whole body), the spherical ordinal of nm_to_name, '
+             'nm_to_name + _name_helper as a whole with every string replaced by its structure code (kind, ordinal, column word, suffix), the '
+             'grouping key of zernikes_to_magnitude_angle_nmkey, and the tables _names / _names_m; proved for every valid order: nm_to_name '
+             'returns (never raises) the structure of the model (gen_nameKey), that structure is one-to-one on the valid orders '
+             '(name_injective, name_key_injective; the ordinal of a column is (n-|m|)/2+1 for even m, (n-1)/2 for odd m), table keys and '
+             'words pairwise different; two coefficients are grouped exactly when they are the +m / -m terms of one (n,|m|) '
+             '(magang_pairs_exactly_pm) and a list naming each order once has groups of at most two (no 3-argument arctan2). '
+             'Compared only: that the real strings have that structure and are pairwise different (all valid n<=80/400), magnitude = hypot, '
+             'angle = degrees(atan2(first, second)), order of groups = first appearance, zernikes_to_magnitude_angle loses no class, '
+             'top_n returns the k largest |c| in descending order with matching position and name; barplot_magnitudes draws one bar per class, label and height '
+             'from the same class, sort=True permutes bars and labels together (ascending). '
              'The floating-point idioms ceil(sqrt(D)) and ceil((A+sqrt(D))/2) are read as exact integers; proved: that reading is '
              'the real-number ceiling (ceil_sqrt_exact, ceil_half_sqrt_exact) AND, for any rounding fl with relative error <= 2^-53, '
              'monotone, exact on integers <= 2^26 (the IEEE binary64 round-to-nearest contract), ceil(fl(sqrt D)) = ceil(sqrt D) '
@@ -1265,6 +1343,7 @@ MANIFEST_ENTRY = {
              'IEEE-754 conformance of np.sqrt / np.ceil and exactness of the small-integer double arithmetic (validated by the '
              'sweeps). Out of scope: indices with sqrt argument >= 2^52 (first Fringe failure j=2^52+1); fixed-width NumPy '
              'integers narrower than the arithmetic needs (8*idx overflows for uint8 from j=32, int16 from j=4096, int32 from '
-             'j=2^28: observed, outside the stated quantifier, not fixed); nm_to_name / top_n. With a degraded tie a defect that '
+             'j=2^28: observed, outside the stated quantifier, not fixed); the string layer of nm_to_name (f-string layout, that different structure codes print differently) '
+             'is compared, not proved; top_n with ties in |c| or k > len (unspecified / raises); barplot (plain) not covered; barplot_magnitudes only for bar / label order (matplotlib Agg, a few lists). With a degraded tie a defect that '
              'only shows beyond Noll row 5*10^6 / XY row 3*10^6 would pass.'),
 }
